@@ -359,7 +359,7 @@ def check(case, res):
     if m.get("kind") == "wrongmod":
         from . import c17
         return c17.check(case, res)
-    if m.get("kind") in ("decl", "forall", "vary"):
+    if m.get("kind") in ("decl", "forall", "vary", "tupitem"):
         return check_extra(case, res, vs)
     st = res["steps"]
     kind = m["kind"]
@@ -536,9 +536,30 @@ def vary_gen(tier):
     return gen
 
 
+def tupitem_gen(tier):
+    """tup() takes scalars only (the manual: nesting and tables are not allowed): also when the item's type is only known at run time"""
+    def gen():
+        n = 0
+        for x, ty in VARY.items():
+            for form in ("u = tup(vone(), 1);", "u = tup(1, vone());", "u = tup(1, 2); u.set@1(vone());", "t = tab(1, tup(vone(), 1));"):
+                fn = "function vone() return undefined is begin return %s; end;" % x
+                ops = [op_ctx(), op_run(fn), op_run(form), op_dump(0, "U,T")]
+                yield Case("ti%d" % n, ops, {"kind": "tupitem", "x": x, "ty": ty, "form": form})
+                n += 1
+    return gen
+
+
 def check_extra(case, res, vs):
     m = case.meta
     st = res["steps"]
+    if m["kind"] == "tupitem":
+        run, dump = st[2], st[3].get("vars", {})
+        compound = m["ty"] in ("table", "tableS", "tuple") or m["x"] == "tab()"
+        if compound and run.get("r") == "ok":
+            vs.append(Violation("tuple:compound-item-accepted", "%s with vone() returning %s was accepted: %s" % (m["form"], m["x"], {k: v[:120] for k, v in dump.items()}), case))
+        if not compound and m["ty"] is not None and run.get("r") != "ok" and "set@1" not in m["form"]:
+            vs.append(Violation("tuple:scalar-item-rejected", "%s with vone() returning %s was rejected: %s" % (m["form"], m["x"], run), case))
+        return vs, True
     if m["kind"] == "vary":
         run, tv = st[2], st[3].get("vars", {}).get("T")
         types = [VARY[x] for x in m["seq"]]
@@ -634,6 +655,7 @@ def run(tier):
             frontier = lim
     total.merge(explore("%s-%s-decls" % (PROP, tier), decl_gen(tier), check, chunk=50, deadline=deadline))
     total.merge(explore("%s-%s-varying" % (PROP, tier), vary_gen(tier), check, chunk=100, deadline=deadline))
+    total.merge(explore("%s-%s-tuple-items" % (PROP, tier), tupitem_gen(tier), check, chunk=50, deadline=deadline))
     # module objects: a table / tuple made for objects of one module never holds an object of another one (the programs and the
     # oracle are those of C17's wrong-module family: direct stores, and stores of what functions with declared or opaque results return)
     from . import c17
